@@ -6,6 +6,7 @@ pub mod r#gen;
 pub mod dag;
 pub mod driver;
 pub mod model;
+pub mod p_checkout;
 pub mod p_crash;
 pub mod p_diff;
 pub mod p_files;
@@ -16,7 +17,9 @@ pub mod p_opheads;
 pub mod p_opmerge;
 pub mod p_paths;
 pub mod p_revset;
+pub mod p_snapshot;
 pub mod p_stores;
+pub mod p_tables;
 pub mod p_rewrite;
 pub mod p_tree;
 pub mod p_view;
@@ -33,6 +36,7 @@ pub fn dispatch(ctx: &Ctx) -> Option<i32> {
         "C03" => p_diff::run_c03(ctx),
         "C04" => p_files::run_c04(ctx),
         "C05" => p_files::run_c05(ctx),
+        "C06" => p_checkout::run_c06(ctx),
         "C07" => p_tree::run_c07(ctx),
         "C08" => p_rewrite::run_c08(ctx),
         "C09" => p_rewrite::run_c09(ctx),
@@ -48,6 +52,14 @@ pub fn dispatch(ctx: &Ctx) -> Option<i32> {
         "C19" => p_revset::run_c19(ctx),
         "C20" => p_index::run_c20(ctx),
         "C39" => p_revset::run_c39(ctx),
+        "C21" => p_tables::run_c21(ctx),
+        "C22" => p_tables::run_c22(ctx),
+        "C23" => p_snapshot::run_c23(ctx),
+        "C24" => p_checkout::run_c24(ctx),
+        "C25" => p_checkout::run_c25(ctx),
+        "C26" => p_snapshot::run_c26(ctx),
+        "C27" => p_snapshot::run_c27(ctx),
+        "C29" => p_checkout::run_c29(ctx),
         "C30" => p_matchers::run_c30(ctx),
         "C31" => p_matchers::run_c31(ctx),
         "C32" => p_paths::run_c32(ctx),
